@@ -22,6 +22,7 @@ def OpOk (t : CT) : Op → Prop
   | .inc _ _ _ => t = .i64
   | .read q => ∀ t', q.slot = .value t' → t' = t
   | .shiftMatch q => ∀ t', q.slot = .value t' → t' = t
+  | .patchCreate _ _ => t = .bytes
   | _ => True
 
 def SingleInv (t : CT) (st : St) : Prop :=
@@ -269,6 +270,18 @@ theorem singleInv_step {cfg : Cfg} (hv : ValFacts cfg) {t : CT} (st : St) (op : 
       · exact h3
       · exact singleInv_setExpire st3 _ h3
   | shiftMatch q => exact singleInv_foldDel _ _ (singleInv_stepBuild hv st q hok h)
+  | shiftKeys ks => exact singleInv_foldDel ks st h
+  | patchCreate k m =>
+    simp only [OpOk] at hok
+    subst hok
+    simp only [step, stepPatchCreate]
+    split
+    · exact singleInv_stepSet hv st _ rfl h
+    · split
+      · exact singleInv_stepSet hv st _ rfl h
+      · split
+        · exact singleInv_stepSet hv st _ rfl h
+        · exact h
 
 theorem singleInv_run {cfg : Cfg} (hv : ValFacts cfg) {t : CT} (h : List Op) (hok : ∀ op ∈ h, OpOk t op) :
     SingleInv t (run cfg h) := by
